@@ -3,6 +3,6 @@ sys.path.insert(0,os.path.dirname(os.path.dirname(os.path.abspath(__file__))))
 from jobs_lib import vf,blk,other
 from vlib.runner import Job
 def jobs(tier):
-    return vf(tier,'C13')+other('C02',tier,lambda j:j.name in('P-book','P-res','S-init-retry','P-floor0','P-map-s1-c1','K-floor0-d1-m3'))+other('C16',tier,lambda j:j.name.startswith('cm-unpack') or j.name.startswith('cm-rt-n2'))+[Job('L-floor0','C13/floor0_lookfree.c',unwind=34,checks=['leak'],witnesses=['both maps built','long map only'],functions=['floor0_look','floor0_free_look','floor0_free_info'],models=[],bounds='every subset of the two bark maps')]
+    return vf(tier,'C13')+other('C02',tier,lambda j:j.name in('P-book','P-res','S-init-retry','P-floor0','P-map-s1-c1','K-floor0-d1-m3','P-setup'))+other('C16',tier,lambda j:j.name.startswith('cm-unpack') or j.name.startswith('cm-rt-n2'))+[Job('L-floor0','C13/floor0_lookfree.c',unwind=34,checks=['leak'],witnesses=['both maps built','long map only'],functions=['floor0_look','floor0_free_look','floor0_free_info'],models=[],bounds='every subset of the two bark maps')]
 CLAIM={'text':'CBMC memory-leak and double-free obligations (--memory-leak-check + free preconditions, leaks replayed under LeakSanitizer) on constructor/destructor pairs and every error exit of: codebook, residue, floor-0 and mapping header parsers, comment unpack/clear, decoder init retry + info/dsp clear, floor-0 look, vorbisfile open/clear incl. the close-callback counter, header fetch, and one activation of the recursive link search (bisect-step: D22, the link whose successor cannot be opened).',
  'note':'Trusted: CBMC allocator model. Not covered: encoder set-up leak freedom with the real templates (D12, the 5.1 residue slot, is recorded from the design-phase hand reproduction only), vorbis_analysis_headerout, the block allocator chain (_vorbis_block_alloc/ripcord), floor-1 parser (harness does not finish).'}
